@@ -89,7 +89,19 @@ func HasExpr(r R, depth int, prefix string) *gripql.HasExpression {
 		}
 	}
 	num := func() interface{} { return []interface{}{0.0, 1.0, 2.0, -1.0, 2.5, 3.0}[r.Intn(6)] }
-	switch r.Intn(12) {
+	switch r.Intn(14) {
+	case 12:
+		mv := MixedValues[r.Intn(len(MixedValues))]
+		if r.Chance(50) {
+			return gripql.Eq(prefix+"m", mv)
+		}
+		return gripql.Neq(prefix+"m", mv)
+	case 13:
+		a, b := MixedValues[r.Intn(len(MixedValues))], MixedValues[r.Intn(len(MixedValues))]
+		if r.Chance(50) {
+			return gripql.Within(prefix+"m", a, b)
+		}
+		return gripql.Without(prefix+"m", a, b)
 	case 0:
 		return gripql.Eq(prefix+"n", num())
 	case 1:
